@@ -184,10 +184,12 @@ def _uidx(name: str) -> int:
 
 
 def _snap(rig) -> str:
+    # held() collects garbage first: a `User` object nothing refers to any more but a reference cycle (the frames of a
+    # cancelled tracking task) would otherwise still answer `get_user_object` until the collector happens to run
+    held = sorted((_uidx(n), v) for n, v in rig.held().items() if n.startswith('user'))
     _, ups = rig.mgr._get_queued_transfers()
     q = ','.join(str(rig.k_of(t)) for t in ups) or '-'
     ents = ' '.join(f'{i}:{s}' for i, s in enumerate(rig.states()))
-    held = sorted((_uidx(n), v) for n, v in rig.held().items() if n.startswith('user'))
     known = ','.join(f'{u}:{st}/{int(pr)}' for u, (st, pr) in held) or '-'
     return f"p={1 if rig.pending() else 0} slots={rig.mgr.get_upload_slots()} q={q} known={known} | {ents}"
 
